@@ -117,3 +117,44 @@ func ZZVerifC14SnapshotMode() {
 	rt.Assert(len(names) <= len(during)+len(before), "EndSnapshotMode returns nothing twice")
 	rt.Reach("end")
 }
+
+// ZZVerifC14TwoCycles: the slice handed back by EndSnapshotMode stays intact while a second snapshot cycle
+// runs (overlapping snapshot + compaction requests): after both shadow lists are replayed the log holds every
+// acknowledged write exactly once, in order.
+func ZZVerifC14TwoCycles() {
+	lw := zzWriter()
+	rt.Assert(lw.BeginSnapshotMode() == nil, "Begin #1")
+	n1 := rt.IntRange("cycle1", 1, 2)
+	var all []string
+	for i := 0; i < n1; i++ {
+		rt.Assert(lw.Write(FormatCommand(zzNames[i])) == nil, "write during cycle 1")
+		all = append(all, zzNames[i])
+	}
+	rt.Assert(lw.Truncate() == nil, "Truncate #1")
+	s1, err := lw.EndSnapshotMode()
+	rt.Assert(err == nil && len(s1) == n1, "End #1 returns the cycle-1 writes")
+	rt.Assert(lw.BeginSnapshotMode() == nil, "Begin #2")
+	n2 := rt.IntRange("cycle2", 1, 2)
+	for i := 0; i < n2; i++ {
+		rt.Assert(lw.Write(FormatCommand(zzNames[n1+i])) == nil, "write during cycle 2")
+		all = append(all, zzNames[n1+i])
+	}
+	rt.Assert(lw.Truncate() == nil, "Truncate #2")
+	s2, err2 := lw.EndSnapshotMode()
+	rt.Assert(err2 == nil && len(s2) == n2, "End #2 returns the cycle-2 writes")
+	for _, w := range s1 {
+		rt.Assert(lw.Write(w) == nil, "replay of shadow list 1")
+	}
+	for _, w := range s2 {
+		rt.Assert(lw.Write(w) == nil, "replay of shadow list 2")
+	}
+	rt.Assert(lw.Sync() == nil, "Sync")
+	got := zzLogged()
+	rt.Assert(len(got) == len(all), "two cycles: every acknowledged write is in the log exactly once")
+	for i := range got {
+		if i < len(all) {
+			rt.Assert(got[i] == all[i], "two cycles: writes keep their order")
+		}
+	}
+	rt.Reach("end")
+}
